@@ -116,6 +116,15 @@ CLI_CORPUS = [
     ("biomass and solar thermal", "1, CONSUMO, ACS, BIOMASA, 50.0, 60.0\n1, CONSUMO, ACS, TERMOSOLAR, 20.0, 10.0\n1, PRODUCCION, TERMOSOLAR, 20.0, 10.0\n1, SALIDA, ACS, 60.0, 60.0\nDEMANDA, ACS, 60.0, 60.0\n"),
     ("district network", "2, CONSUMO, CAL, RED1, 300.0\n2, CONSUMO, REF, RED2, 100.0\n"),
     ("electricity only", "3, CONSUMO, ILU, ELECTRICIDAD, 100.0, 90.0\n3, PRODUCCION, EL_INSITU, 40.0, 120.0\n"),
+    # user factors and parameters given both in the metadata and, differently, on the command line: the command line wins, and the
+    # saved files must carry what was used
+    ("district network, --red1 over metadata", "#META CTE_RED1: 0.0, 1.3, 0.3\n2, CONSUMO, CAL, RED1, 300.0\n3, CONSUMO, ACS, ELECTRICIDAD, 50.0\n",
+     ["--red1", "0.8", "0.2", "0.05"]),
+    ("district network, --red2 over metadata", "#META CTE_RED2: 0.1, 1.1, 0.2\n2, CONSUMO, REF, RED2, 300.0\n3, CONSUMO, ACS, ELECTRICIDAD, 50.0\n",
+     ["--red2", "0.6", "0.5", "0.1"]),
+    ("district network, factors in the metadata only", "#META CTE_RED1: 0.7, 0.4, 0.1\n#META CTE_RED2: 0.1, 1.1, 0.2\n2, CONSUMO, CAL, RED1, 300.0\n2, CONSUMO, REF, RED2, 100.0\n", []),
+    ("k_exp and area over metadata", "#META CTE_KEXP: 0.0\n#META CTE_AREAREF: 100.0\n3, CONSUMO, ILU, ELECTRICIDAD, 100.0, 90.0\n3, PRODUCCION, EL_INSITU, 40.0, 120.0\n",
+     ["-k", "1", "-a", "50"]),
 ]
 
 
@@ -279,29 +288,37 @@ def run(tier, seed):
     d = cliflow.workdir("c18")
     try:
         # corpus first: buildings whose saved factors lack a carrier the reader used to insist on (fix 1505fba)
-        for ci, (name, ctext) in enumerate(CLI_CORPUS):
+        for ci, item in enumerate(CLI_CORPUS):
+            name, ctext, extra = item if len(item) == 3 else (item[0], item[1], [])
             for loc in ("PENINSULA", "CANARIAS"):
                 cp = os.path.join(d, "k%d.csv" % ci)
                 open(cp, "w", encoding="utf-8").write(ctext)
                 oc, of = os.path.join(d, "koc%d.csv" % ci), os.path.join(d, "kof%d.csv" % ci)
-                a1 = ["-c", cp, "-l", loc, "--oc", oc, "--of", of, "--json", os.path.join(d, "ka%d.json" % ci)]
+                a1 = ["-c", cp, "-l", loc, "--oc", oc, "--of", of, "--json", os.path.join(d, "ka%d.json" % ci)] + extra
                 r1 = cliflow.run_cli(a1, d)
                 if r1["exit"] != 0:
                     R.harness_errors.append("corpus building %s is refused: %s" % (name, r1["stderr"][-200:]))
                     continue
                 r2 = cliflow.run_cli(["-c", oc, "-f", of, "--json", os.path.join(d, "kb%d.json" % ci)], d)
+                # the saved components alone: they record the location, the user factors and the parameters that were used
+                r3 = cliflow.run_cli(["-c", oc, "--json", os.path.join(d, "kc%d.json" % ci)], d)
                 R.evaluations += 1
                 stats["cli_corpus_pairs"] += 1
                 what = None
                 if r2["exit"] != 0:
                     what = "the files saved with --oc / --of are refused (exit %s): %s" % (r2["exit"], r2["stderr"][-200:])
+                elif r3["exit"] != 0:
+                    what = "the components saved with --oc are refused (exit %s): %s" % (r3["exit"], r3["stderr"][-200:])
                 else:
                     ja = json.load(open(os.path.join(d, "ka%d.json" % ci)))
-                    jb = json.load(open(os.path.join(d, "kb%d.json" % ci)))
-                    for key in ("ren", "nren", "co2"):
-                        x, y = Fraction(ja["balance"]["we"]["b"][key]), Fraction(jb["balance"]["we"]["b"][key])
-                        if abs(x - y) > Fraction(1, 2) + abs(x) * Fraction(1, 1000):
-                            what = "weighted energy B (%s) from the saved files is %s, originally %s" % (key, core.fstr(y), core.fstr(x))
+                    for lab, fn in (("--oc / --of", "kb%d.json"), ("--oc alone", "kc%d.json")):
+                        jb = json.load(open(os.path.join(d, fn % ci)))
+                        if abs(ja["k_exp"] - jb["k_exp"]) > 1e-6 or abs(ja["arearef"] - jb["arearef"]) > 1e-6 * max(1, ja["arearef"]):
+                            what = "k_exp / area from the files saved with %s (%s, %s) are not the ones used (%s, %s)" % (lab, jb["k_exp"], jb["arearef"], ja["k_exp"], ja["arearef"])
+                        for key in ("ren", "nren", "co2"):
+                            x, y = Fraction(ja["balance"]["we"]["b"][key]), Fraction(jb["balance"]["we"]["b"][key])
+                            if abs(x - y) > Fraction(1, 2) + abs(x) * Fraction(1, 1000):
+                                what = "weighted energy B (%s) from the files saved with %s is %s, originally %s" % (key, lab, core.fstr(y), core.fstr(x))
                 if what:
                     if len(R.violations) < 4:
                         R.violations.append((what.split(" (")[0][:70], {"what": what, "components": ctext, "args": [x.replace(d, "<dir>") for x in a1]}))
